@@ -3,8 +3,9 @@
    Model: Model/Descriptor.v; Core's algorithm: Spec/CoreDescChecksum.v; the character
    sets and calc_poly_mod constants are regenerated from descriptor.py on every run
    (Generated/DescConsts.v). *)
+From Coq Require Import Permutation.
 From V Require Import Base.Prelude Generated.DescConsts Model.Descriptor Spec.CoreDescChecksum
-  Proofs.DescChecksumP Proofs.DescDetectP.
+  Proofs.DescChecksumP Proofs.DescDetectP Proofs.DescriptorP.
 
 (* (1) calc_core_checksum is Bitcoin Core's DescriptorChecksum on EVERY text: the same 8
    characters when all characters are in the input charset, an error (Core: empty string)
@@ -41,3 +42,142 @@ Theorem C16_regex_class_is_checksum_charset :
   desc_regex_checksum_class = desc_checksum_charset /\ desc_regex_checksum_count = 8.
 Proof. split; reflexivity. Qed.
 Print Assumptions C16_regex_class_is_checksum_charset.
+
+(* ---------------------------------------------------------------------------------------
+   Structure of P2WSHSortedMulti.  The functions of hd.py the descriptor code calls are
+   universally quantified: path_ok (is_valid_bip32_path), hdparse (HDPublicKey.parse and
+   re-encoding without SLIP-132 version, with the network), child_ok (the account child
+   exists), derive (xpub/account/offset -> 33-byte key), sha256, p2wsh_address.            *)
+
+(* (3) text round trip over the fields the regular expressions cut out of repr(d):
+   parsing the constructor's own output (with and without the checksum) gives back the same
+   descriptor: same m, same sorted records, same text, checksum and network.  Premises: the
+   re-encoded xpub parses to itself (hd_idempotent), fingerprints in lower case and paths
+   starting with "m" (the constructor accepts more, see C16_roundtrip_needs_lowercase_xfp),
+   the account children exist, m <= n. *)
+Theorem C16_descriptor_text_roundtrip :
+  forall path_ok hdparse child_ok m recs d,
+  hd_idempotent hdparse ->
+  construct path_ok hdparse m recs [] true = Ok d ->
+  m <= zlen recs ->
+  Forall lower_xfp recs -> Forall path_m recs ->
+  Forall (fun kr => child_ok (kr_xpub kr) (kr_idx kr) = true) (d_recs d) ->
+  parse_struct path_ok hdparse child_ok (d_m d) (fields_of d) (d_checksum d) = Ok d /\
+  parse_struct path_ok hdparse child_ok (d_m d) (fields_of d) [] = Ok d.
+Proof. exact descriptor_text_roundtrip. Qed.
+Print Assumptions C16_descriptor_text_roundtrip.
+
+Theorem C16_constructor_rejects_wrong_checksum :
+  forall path_ok hdparse m recs srt d cs,
+  construct path_ok hdparse m recs [] srt = Ok d -> cs <> [] -> cs <> d_checksum d ->
+  construct path_ok hdparse m recs cs srt = Err.
+Proof. exact construct_rejects_wrong_checksum. Qed.
+Print Assumptions C16_constructor_rejects_wrong_checksum.
+
+(* altering a checksum character is detected by plain string inequality *)
+Theorem C16_parse_rejects_wrong_checksum :
+  forall path_ok hdparse child_ok m fields d cs,
+  parse_struct path_ok hdparse child_ok m fields [] = Ok d -> cs <> [] -> cs <> d_checksum d ->
+  parse_struct path_ok hdparse child_ok m fields cs = Err.
+Proof. exact parse_rejects_wrong_checksum. Qed.
+Print Assumptions C16_parse_rejects_wrong_checksum.
+
+(* what a constructed descriptor is: text = wsh(sortedmulti(m,records sorted by xpub)),
+   checksum = calc_core_checksum(text) *)
+Theorem C16_constructed_descriptor :
+  forall path_ok hdparse m recs cs srt d,
+  construct path_ok hdparse m recs cs srt = Ok d ->
+  1 <= m /\ recs <> [] /\
+  exists n, Forall (rec_ok path_ok hdparse n) recs /\
+    d_recs d = (if srt then sort_by kr_xpub (map (normed path_ok hdparse) recs)
+                else map (normed path_ok hdparse) recs) /\
+    d_m d = m /\ d_net d = n /\ d_text d = render_text m (d_recs d) /\
+    desc_checksum (d_text d) = Ok (d_checksum d) /\ (cs = [] \/ cs = d_checksum d).
+Proof. exact construct_ok. Qed.
+Print Assumptions C16_constructed_descriptor.
+
+(* (4) order independence.  Text/records: for every permutation of the supplied records,
+   provided two records with the same re-encoded xpub are the same record (Python's sort is
+   stable, so without this the output order of equal-xpub records follows the input). *)
+Theorem C16_descriptor_order_independent :
+  forall path_ok hdparse m recs recs' cs,
+  Permutation recs recs' ->
+  (forall a b, In a recs -> In b recs ->
+     kr_xpub (normed path_ok hdparse a) = kr_xpub (normed path_ok hdparse b) ->
+     normed path_ok hdparse a = normed path_ok hdparse b) ->
+  construct path_ok hdparse m recs cs true = construct path_ok hdparse m recs' cs true.
+Proof. exact construct_order_independent. Qed.
+Print Assumptions C16_descriptor_order_independent.
+
+(* witness script and address: for every permutation, no side condition *)
+Theorem C16_address_order_independent :
+  forall derive sha256 p2wsh_address d d' off chg,
+  Permutation (d_recs d) (d_recs d') -> d_m d = d_m d' -> d_net d = d_net d' ->
+  witness_script derive d off chg true = witness_script derive d' off chg true /\
+  get_address derive sha256 p2wsh_address d off chg true =
+  get_address derive sha256 p2wsh_address d' off chg true.
+Proof. exact address_order_independent. Qed.
+Print Assumptions C16_address_order_independent.
+
+(* (5) script shape: OP_m, exactly one pushed child key per key record — the key
+   derive(xpub, account_index, offset) for receive, derive(xpub, account_index + 1, offset)
+   for change — in lexicographic order, OP_n, OP_CHECKMULTISIG *)
+Theorem C16_witness_script_shape :
+  forall derive d off chg ws,
+  witness_script derive d off chg true = Ok ws ->
+  exists ks om on,
+    Forall2 (fun kr k => derive (kr_xpub kr) (account chg kr) off = Ok k) (d_recs d) ks /\
+    length ks = length (d_recs d) /\
+    number_to_op_code (d_m d) = Ok om /\ number_to_op_code (zlen (d_recs d)) = Ok on /\
+    0 <= off /\
+    ser_cmds (Op om :: map Push (sort_by (fun k => k) ks) ++ [Op on; Op 174]) = Ok ws.
+Proof. exact witness_script_shape. Qed.
+Print Assumptions C16_witness_script_shape.
+
+(* equal receive and change addresses at one offset: a SHA-256 collision (exhibited) or the
+   two branches have the same sorted child keys (a BIP32-level coincidence, C08) *)
+Theorem C16_branches_distinct :
+  forall derive sha256 p2wsh_address d off a,
+  (forall h h' n, p2wsh_address h n = p2wsh_address h' n -> h = h') ->
+  (forall x acc i k, derive x acc i = Ok k -> length k = 33%nat) ->
+  get_address derive sha256 p2wsh_address d off false true = Ok a ->
+  get_address derive sha256 p2wsh_address d off true true = Ok a ->
+  (exists s s', s <> s' /\ sha256 s = sha256 s') \/
+  (exists kr kc,
+     child_keys derive (d_recs d) false off = Ok kr /\
+     child_keys derive (d_recs d) true off = Ok kc /\
+     sort_by (fun k => k) kr = sort_by (fun k => k) kc).
+Proof. exact branches_distinct. Qed.
+Print Assumptions C16_branches_distinct.
+
+(* ---- the premises are satisfiable, and the side conditions are needed ---- *)
+Definition ex_path_ok (p : list Z) : bool := true.
+Definition ex_hdparse (x : list Z) : result (list Z * Z) := Ok (x, 0).
+Definition ex_child_ok (x : list Z) (i : Z) : bool := true.
+Definition ex_rec (x : Z) (up : bool) : keyrec :=
+  {| kr_xfp := if up then [65; 49; 50; 51; 52; 53; 54; 55] else [97; 49; 50; 51; 52; 53; 54; 55];
+     kr_path := [109; 47; 52; 56; 104]; kr_xpub := [120; 112; 117; 98; x]; kr_idx := 0 |}.
+
+Example C16_roundtrip_example :
+  exists d, construct ex_path_ok ex_hdparse 2 [ex_rec 66 false; ex_rec 65 false] [] true = Ok d /\
+    d_recs d = [ex_rec 65 false; ex_rec 66 false] /\
+    parse_struct ex_path_ok ex_hdparse ex_child_ok (d_m d) (fields_of d) (d_checksum d) = Ok d.
+Proof.
+  eexists. split; [vm_compute; reflexivity|]. split; [vm_compute; reflexivity|].
+  vm_compute. reflexivity.
+Qed.
+
+(* an upper-case fingerprint is accepted by the constructor, but its own text is rejected
+   by parse (the key-record regex wants [0-9a-f]{8}) *)
+Example C16_roundtrip_needs_lowercase_xfp :
+  exists d, construct ex_path_ok ex_hdparse 1 [ex_rec 65 true] [] true = Ok d /\
+    parse_struct ex_path_ok ex_hdparse ex_child_ok (d_m d) (fields_of d) (d_checksum d) = Err.
+Proof. eexists. split; [vm_compute; reflexivity|]. vm_compute. reflexivity. Qed.
+
+(* two records with the same xpub and different account indexes: the text depends on the
+   order in which they are supplied *)
+Example C16_order_needs_distinct_xpubs :
+  let a := ex_rec 65 false in
+  let b := {| kr_xfp := kr_xfp a; kr_path := kr_path a; kr_xpub := kr_xpub a; kr_idx := 5 |} in
+  construct ex_path_ok ex_hdparse 1 [a; b] [] true <> construct ex_path_ok ex_hdparse 1 [b; a] [] true.
+Proof. vm_compute. intros H. discriminate H. Qed.
